@@ -829,6 +829,75 @@ fn scenario_kill_then_drop(seed: u64) {
 }
 
 // ------------------------------------------------------------------------------------------------
+// C16 (thread clause): the blocking forwarders of the type-erased handlers. Two identically prepared actors
+// (gated handler in progress, mailbox filled to capacity or not), the same blocking call with the same
+// timeout - once on the ActorRef, once through Box<dyn TellHandler> / Box<dyn AskHandler> (every conversion)
+// - must give the same kind of result and the same effect on the actor. A call through the erased handle
+// that blocks where the direct one returns leaves every thread blocked: Miri's deadlock verdict.
+fn scenario_erased_blocking(seed: u64) {
+    use rsactor::{AskHandler, TellHandler};
+    let mut rng = Rng(seed);
+    let rt = rt();
+    let cap = 1 + rng.below(2) as usize;
+    let fill = rng.below(2) == 0; // mailbox full at the time of the call?
+    let use_ask = rng.below(2) == 0;
+    let timeout = [Some(Duration::ZERO), Some(Duration::from_millis(1)), Some(Duration::from_millis(20)), None][rng.below(4) as usize];
+    // an untimed call on a gated actor only returns once the gate opens: release it from a helper thread
+    let by_ref = rng.below(2) == 0;
+    let mut obs = Vec::new();
+    for erased in [false, true] {
+        let (r, jh, journal, gate) = new_actor(&rt, cap, true);
+        let gate = gate.unwrap();
+        r.blocking_tell(Job(1, true), None).unwrap();
+        while journal.lock().unwrap().entered < 1 {
+            std::thread::sleep(Duration::from_millis(1));
+        }
+        if fill {
+            for i in 0..cap as u64 {
+                r.blocking_tell(Job(10 + i, false), None).unwrap();
+            }
+        }
+        let opener = if timeout.is_none() {
+            let gate = gate.clone();
+            Some(std::thread::spawn(move || {
+                std::thread::sleep(Duration::from_millis(3000));
+                gate.add_permits(8);
+            }))
+        } else {
+            None
+        };
+        let res: Result<(), Error> = match (erased, use_ask) {
+            (false, false) => r.blocking_tell(Job(50, false), timeout),
+            (false, true) => r.blocking_ask(Job(50, false), timeout).map(|_| ()),
+            (true, false) => {
+                let h: Box<dyn TellHandler<Job>> = if by_ref { (&r).into() } else { r.clone().into() };
+                h.blocking_tell(Job(50, false), timeout)
+            }
+            (true, true) => {
+                let h: Box<dyn AskHandler<Job, Receipt>> = if by_ref { (&r).into() } else { r.clone().into() };
+                h.blocking_ask(Job(50, false), timeout).map(|_| ())
+            }
+        };
+        let kind = match &res {
+            Ok(()) => "ok",
+            Err(e) => err_kind(e),
+        };
+        if let Some(o) = opener {
+            o.join().unwrap();
+        }
+        gate.add_permits(8);
+        rt.block_on(r.stop()).unwrap();
+        let _ = rt.block_on(jh);
+        let handled50 = journal.lock().unwrap().handled.contains(&50);
+        obs.push((kind, handled50));
+    }
+    ev(format!("erased-blocking ask={use_ask} cap={cap} fill={fill} timeout={timeout:?} by_ref={by_ref} direct={:?} erased={:?}", obs[0], obs[1]));
+    if obs[0] != obs[1] {
+        violation("C16", "blocking-differs", format!("{}(.., {timeout:?}) on a gated actor (mailbox full: {fill}): directly {:?}, through the erased handler {:?} (result kind, message handled)", if use_ask { "blocking_ask" } else { "blocking_tell" }, obs[0], obs[1]));
+    }
+}
+
+// ------------------------------------------------------------------------------------------------
 // C14 / C15 under real parallelism (feature deadlock-detection): the wait-for graph is shared by every
 // thread. Ring: every node's handler asks the next node, several clients enter the ring at different
 // nodes at once - some participant must report the cycle and nobody may be left waiting (Miri's deadlock
@@ -1170,6 +1239,7 @@ fn main() {
         "kill_then_drop" => scenario_kill_then_drop(seed),
         "end_vs_observers" => scenario_end_vs_observers(seed),
         "dd_mt" => scenario_dd_mt(seed),
+        "erased_blocking" => scenario_erased_blocking(seed),
         "blocking_ask_vs_end" => scenario_blocking_ask_vs_end(seed),
         "deadletters" => scenario_deadletters(seed),
         "selftest_hang" => scenario_selftest_hang(seed),
